@@ -20,18 +20,101 @@ Section Corollaries.
   Hypothesis Hcore : core_ctx cx.
   Hypothesis Hclears : c_rollback_clears_cache cx = ROLLBACK_CLEARS_CACHE.
 
+  (* ---- auxiliary lemmas ---- *)
+  Lemma Hcl : c_rollback_clears_cache cx = true.
+  Proof. rewrite Hclears; reflexivity. Qed.
+
+  Lemma reach_ne : forall st, reach cx st -> p_error st = false -> p_stack st <> [].
+  Proof.
+    intros st Hr He. destruct (reach_good cx Hcore Hcl st Hr He) as (G & _).
+    exact (s_ne _ _ (gd_struct _ _ G)).
+  Qed.
+
+  Lemma abs_top_eq : forall st1 st,
+    abs_stack st1 = abs_stack st -> p_stack st <> [] -> abs_top st1 = abs_top st.
+  Proof.
+    intros st1 st E Hne. rewrite (abs_top_stack st Hne) in E.
+    exact (abs_stack_top st1 _ _ E).
+  Qed.
+
+  Lemma mask_spec_text : forall f t w, text_token cx t w ->
+    (mask_spec cx f t = true <-> run pframe (ppush cx) f w <> None).
+  Proof.
+    intros f t w (Hlt & Hnth & Hne & Hmk & Heos & Hmt).
+    unfold mask_spec, bias_spec. rewrite Hnth.
+    destruct w as [|b w]; [congruence|].
+    cbn [is_prefix length Nat.eqb negb orb andb skipn].
+    assert (Hm : match c_marker_tok cx with Some m => t =? m | None => false end = false).
+    { destruct (c_marker_tok cx) as [m0|]; [|reflexivity]. apply N.eqb_neq. exact Hmt. }
+    rewrite Hm. cbn [negb]. rewrite andb_true_r.
+    destruct (run pframe (ppush cx) f (b :: w)) as [f'|]; cbn [is_some].
+    - split; [intros _; discriminate|reflexivity].
+    - split; [discriminate|intros H; exfalso; apply H; reflexivity].
+  Qed.
+
+  Lemma p_validate_single : forall t w f stk,
+    decode_raw (c_trie cx) [t] = w ->
+    existsb (N.eqb t) (c_eos cx) = false ->
+    existsb (N.eqb marker) w = false ->
+    p_validate cx (f :: stk) [t] =
+    match run pframe (ppush cx) f w with Some _ => 1 | None => 0 end.
+  Proof.
+    intros t w f stk Hd He Hm. subst w. rewrite p_validate_pval by discriminate.
+    cbn [pval]. rewrite He. cbv zeta.
+    match goal with |- (if ?c then _ else _) = _ => replace c with false by (symmetry; exact Hm) end.
+    match goal with |- match prun cx (f :: stk) ?w with _ => _ end =
+                       match run _ _ _ ?w' with _ => _ end =>
+      change w' with w; pose proof (prun_run cx w f stk) as Hpr;
+      destruct (prun cx (f :: stk) w) as [stk'|] end.
+    - destruct Hpr as (pushed & _ & _ & Hrun). rewrite Hrun. reflexivity.
+    - rewrite Hpr. reflexivity.
+  Qed.
+
+  (* both masks are mask_spec of equal tops *)
+  Lemma mask_eq_of_abs : forall sa ma sa' sb mb sb',
+    reach cx sa -> p_panic sa = false -> reach cx sb -> p_panic sb = false ->
+    compute_bias cx sa [] = (ma, sa') -> p_error sa' = false ->
+    compute_bias cx sb [] = (mb, sb') -> p_error sb' = false ->
+    abs_stack sa = abs_stack sb -> p_stack sb <> [] ->
+    forall t, t < vocab_size (c_trie cx) -> get ma t = get mb t.
+  Proof.
+    intros sa ma sa' sb mb sb' Hra Hpa Hrb Hpb Ha Hea Hb Heb E Hne t Ht.
+    destruct (compute_bias_spec cx Hcore Hcl sa ma sa' Hra Hpa Ha Hea) as (_ & _ & _ & _ & _ & _ & Hga).
+    destruct (compute_bias_spec cx Hcore Hcl sb mb sb' Hrb Hpb Hb Heb) as (_ & _ & _ & _ & _ & _ & Hgb).
+    rewrite (Hga t Ht), (Hgb t Ht), (abs_top_eq sa sb E Hne). reflexivity.
+  Qed.
+
+  Lemma mask_keeps_state_aux : forall st m st1,
+    settled cx st -> compute_bias cx st [] = (m, st1) -> p_error st1 = false ->
+    settled cx st1 /\ abs_stack st1 = abs_stack st.
+  Proof.
+    intros st m st1 (Hr & Hp & He & Ha) Hb Herr.
+    destruct (compute_bias_spec cx Hcore Hcl st m st1 Hr Hp Hb Herr)
+      as ((He1 & Hp1) & Habs & Hby & Hap & _).
+    split; [|exact Habs].
+    split; [eapply r_bias; eassumption|]. split; [exact Hp1|]. split; [exact He1|].
+    rewrite Hap, Hby. exact Ha.
+  Qed.
+
   (*FIXED*) (* the pure engine runs a concatenation byte by byte *)
   Lemma run_app : forall (f : pframe) w1 w2,
     run pframe (ppush cx) f (w1 ++ w2) =
     match run pframe (ppush cx) f w1 with Some f' => run pframe (ppush cx) f' w2 | None => None end.
-  Proof. Admitted.
+  Proof.
+    intros f w1. revert f. induction w1 as [|b w1 IH]; intros f w2; [reflexivity|].
+    cbn [app run]. destruct (ppush cx f b) as [f'|]; [apply IH|reflexivity].
+  Qed.
 
   (*FIXED*) (* C01: a token is in the mask exactly when the pure engine accepts its bytes *)
   Theorem mask_iff_run : forall st m st1 t w,
     settled cx st -> text_token cx t w ->
     compute_bias cx st [] = (m, st1) -> p_error st1 = false ->
     (get m t = true <-> run pframe (ppush cx) (abs_top st) w <> None).
-  Proof. Admitted.
+  Proof.
+    intros st m st1 t w (Hr & Hp & He & Ha) Ht Hb Herr.
+    destruct (compute_bias_spec cx Hcore Hcl st m st1 Hr Hp Hb Herr) as (_ & _ & _ & _ & _ & _ & Hg).
+    rewrite (Hg t (proj1 Ht)). apply mask_spec_text. exact Ht.
+  Qed.
 
   (*FIXED*) (* C01: ... exactly when committing it succeeds (in the state the mask computation leaves) *)
   Theorem mask_iff_commit : forall st m st1 t w ok st2,
@@ -39,7 +122,15 @@ Section Corollaries.
     compute_bias cx st [] = (m, st1) -> p_error st1 = false ->
     apply_token cx st1 w = (ok, st2) -> p_error st2 = false ->
     (get m t = true <-> ok = true).
-  Proof. Admitted.
+  Proof.
+    intros st m st1 t w ok st2 Hs Ht Hb Herr Hap Herr2.
+    destruct (mask_keeps_state_aux st m st1 Hs Hb Herr) as ((Hr1 & Hp1 & He1 & Ha1) & Habs).
+    destruct Hs as (Hr & Hp & He & Ha).
+    rewrite (mask_iff_run st m st1 t w (conj Hr (conj Hp (conj He Ha))) Ht Hb Herr).
+    destruct (apply_token_spec cx Hcore Hcl st1 w ok st2 Hr1 Hp1 He1 Ha1 Hap Herr2) as [Hok _].
+    rewrite (abs_top_eq st1 st Habs (reach_ne st Hr He)) in Hok.
+    split; intros H; apply Hok; exact H.
+  Qed.
 
   (*FIXED*) (* C01: ... exactly when validating it alone returns 1 *)
   Theorem mask_iff_validate : forall st m st1 t w n st2,
@@ -48,13 +139,26 @@ Section Corollaries.
     compute_bias cx st [] = (m, st1) -> p_error st1 = false ->
     validate_tokens cx st1 [t] = (n, st2) -> p_error st2 = false ->
     (get m t = true <-> n = 1).
-  Proof. Admitted.
+  Proof.
+    intros st m st1 t w n st2 Hs Ht Hdec Hb Herr Hv Herr2.
+    destruct (mask_keeps_state_aux st m st1 Hs Hb Herr) as ((Hr1 & Hp1 & He1 & Ha1) & Habs).
+    rewrite (mask_iff_run st m st1 t w Hs Ht Hb Herr).
+    destruct Hs as (Hr & Hp & He & Ha).
+    destruct (validate_tokens_spec cx Hcore Hcl st1 [t] n st2 Hr1 Hp1 Ha1 Hv Herr2)
+      as (_ & _ & _ & _ & Hn).
+    destruct Ht as (Hlt & Hnth & Hne & Hmk & Heos & Hmt).
+    rewrite Habs, (abs_top_stack st (reach_ne st Hr He)) in Hn.
+    rewrite (p_validate_single t w _ _ Hdec Heos Hmk) in Hn. subst n.
+    destruct (run pframe (ppush cx) (abs_top st) w) as [f'|].
+    - split; [reflexivity|intros _; discriminate].
+    - split; [intros H; exfalso; apply H; reflexivity|discriminate].
+  Qed.
 
   (*FIXED*) (* the mask computation leaves a settled state with the same pure stack *)
   Theorem mask_keeps_state : forall st m st1,
     settled cx st -> compute_bias cx st [] = (m, st1) -> p_error st1 = false ->
     settled cx st1 /\ abs_stack st1 = abs_stack st.
-  Proof. Admitted.
+  Proof. exact mask_keeps_state_aux. Qed.
 
   (*FIXED*) (* C02: a multi-byte token is allowed exactly when its bytes, fed one at a time,
      are accepted at every step *)
@@ -68,7 +172,19 @@ Section Corollaries.
           | b :: w', f' :: fs' => ppush cx f b = Some f' /\ chain f' w' fs'
           | _, _ => False
           end) (abs_top st) w frames).
-  Proof. Admitted.
+  Proof.
+    intros st w _. generalize (abs_top st) as f.
+    induction w as [|b w IH]; intros f.
+    - cbn [run]. split; [intros _; exists []; split; [reflexivity|exact I]|intros _; discriminate].
+    - cbn [run]. split.
+      + intros H. destruct (ppush cx f b) as [f'|] eqn:E; [|congruence].
+        destruct (proj1 (IH f') H) as (fs & Hlen & Hch).
+        exists (f' :: fs). split; [cbn [length]; rewrite Hlen; reflexivity|].
+        split; [reflexivity|exact Hch].
+      + intros (fs & Hlen & Hch). destruct fs as [|f' fs]; [exact (False_ind _ Hch)|].
+        destruct Hch as [E Hch]. rewrite E. apply (proj2 (IH f')).
+        exists fs. split; [cbn [length] in Hlen; congruence|exact Hch].
+  Qed.
 
   (*FIXED*) (* C02: two commits equal one commit of the concatenated bytes *)
   Theorem commit_split_irrelevant : forall st w1 w2 st1 st2 st12,
@@ -77,7 +193,10 @@ Section Corollaries.
     apply_token cx st1 w2 = (true, st2) -> p_error st2 = false ->
     apply_token cx st (w1 ++ w2) = (true, st12) -> p_error st12 = false ->
     abs_stack st12 = abs_stack st2 /\ p_bytes st12 = p_bytes st2.
-  Proof. Admitted.
+  Proof.
+    intros st w1 w2 st1 st2 st12 (Hr & Hp & He & Ha) H1 He1 H2 He2 H12 He12.
+    exact (apply_token_app cx Hcore Hcl st w1 w2 st1 st2 st12 Hr He Ha H1 He1 H2 He2 H12 He12).
+  Qed.
 
   (*FIXED*) (* C11: same mask with and without the cache *)
   Theorem mask_cache_independent : forall st m1 st1 m2 st2,
@@ -85,7 +204,10 @@ Section Corollaries.
     compute_bias cx st [] = (m1, st1) -> p_error st1 = false ->
     compute_bias cx (set_cache st None) [] = (m2, st2) -> p_error st2 = false ->
     forall t, t < vocab_size (c_trie cx) -> get m1 t = get m2 t.
-  Proof. Admitted.
+  Proof.
+    intros st m1 st1 m2 st2 Hr H1 He1 H2 He2.
+    exact (cache_transparent cx Hcore Hcl st m1 st1 m2 st2 Hr H1 He1 H2 He2).
+  Qed.
 
   (*FIXED*) (* C11: computing the mask twice gives the same mask *)
   Theorem mask_twice : forall st m1 st1 m2 st2,
@@ -93,7 +215,13 @@ Section Corollaries.
     compute_bias cx st [] = (m1, st1) -> p_error st1 = false ->
     compute_bias cx st1 [] = (m2, st2) -> p_error st2 = false ->
     forall t, t < vocab_size (c_trie cx) -> get m1 t = get m2 t.
-  Proof. Admitted.
+  Proof.
+    intros st m1 st1 m2 st2 Hs H1 He1 H2 He2.
+    destruct (mask_keeps_state_aux st m1 st1 Hs H1 He1) as ((Hr1 & Hp1 & _ & _) & Habs).
+    destruct Hs as (Hr & Hp & He & Ha).
+    intros t Ht. symmetry.
+    exact (mask_eq_of_abs st1 m2 st2 st m1 st1 Hr1 Hp1 Hr Hp H2 He2 H1 He1 Habs (reach_ne st Hr He) t Ht).
+  Qed.
 
   (*FIXED*) (* C11: read-only queries (validation, accepting) leave no trace in a later mask *)
   Theorem queries_leave_no_trace : forall st toks n st1 a st2 m st3 m' st3',
@@ -103,7 +231,18 @@ Section Corollaries.
     compute_bias cx st2 [] = (m, st3) -> p_error st3 = false ->
     compute_bias cx st [] = (m', st3') -> p_error st3' = false ->
     forall t, t < vocab_size (c_trie cx) -> get m t = get m' t.
-  Proof. Admitted.
+  Proof.
+    intros st toks n st1 a st2 m st3 m' st3' (Hr & Hp & He & Ha) Hv He1 Hacc He2 Hb He3 Hb' He3'.
+    destruct (validate_tokens_spec cx Hcore Hcl st toks n st1 Hr Hp Ha Hv He1)
+      as ((_ & Hp1) & Habs1 & _).
+    assert (Hr1 : reach cx st1) by (eapply r_validate; eassumption).
+    destruct (is_accepting_spec cx Hcore Hcl st1 a st2 Hr1 Hp1 Hacc He2)
+      as ((_ & Hp2) & Habs2 & _).
+    assert (Hr2 : reach cx st2) by (eapply r_accepting; eassumption).
+    apply (mask_eq_of_abs st2 m st3 st m' st3' Hr2 Hp2 Hr Hp Hb He3 Hb' He3').
+    - rewrite Habs2. exact Habs1.
+    - exact (reach_ne st Hr He).
+  Qed.
 
   (*FIXED*) (* C12: commit then rollback: same pure stack, same bytes, hence the same mask *)
   Theorem rollback_then_mask : forall st w st1 st2 m st3 m' st3',
@@ -113,7 +252,15 @@ Section Corollaries.
     compute_bias cx st2 [] = (m, st3) -> p_error st3 = false ->
     compute_bias cx st [] = (m', st3') -> p_error st3' = false ->
     forall t, t < vocab_size (c_trie cx) -> get m t = get m' t.
-  Proof. Admitted.
+  Proof.
+    intros st w st1 st2 m st3 m' st3' (Hr & Hp & He & Ha) Heos Hap He1 Hrb Hb He3 Hb' He3'.
+    destruct (rollback_restores cx Hcore Hcl st w st1 st2 Hr Hp He Ha Heos Hap He1 Hrb)
+      as ((_ & Hp2) & Habs & _).
+    assert (Hr2 : reach cx st2).
+    { eapply r_rollback; [eapply r_apply; eassumption|eassumption]. }
+    apply (mask_eq_of_abs st2 m st3 st m' st3' Hr2 Hp2 Hr Hp Hb He3 Hb' He3' Habs).
+    exact (reach_ne st Hr He).
+  Qed.
 
   (*FIXED*) (* C12: ... and the same accepting flag *)
   Theorem rollback_then_accepting : forall st w st1 st2 a st3 a' st3',
@@ -123,5 +270,27 @@ Section Corollaries.
     is_accepting cx st2 = (a, st3) -> p_error st3 = false ->
     is_accepting cx st = (a', st3') -> p_error st3' = false ->
     a = a'.
-  Proof. Admitted.
+  Proof.
+    intros st w st1 st2 a st3 a' st3' (Hr & Hp & He & Ha) Heos Hap He1 Hrb Hacc He3 Hacc' He3'.
+    destruct (rollback_restores cx Hcore Hcl st w st1 st2 Hr Hp He Ha Heos Hap He1 Hrb)
+      as ((_ & Hp2) & Habs & _).
+    assert (Hr2 : reach cx st2).
+    { eapply r_rollback; [eapply r_apply; eassumption|eassumption]. }
+    destruct (is_accepting_spec cx Hcore Hcl st2 a st3 Hr2 Hp2 Hacc He3) as (_ & _ & _ & _ & ->).
+    destruct (is_accepting_spec cx Hcore Hcl st a' st3' Hr Hp Hacc' He3') as (_ & _ & _ & _ & ->).
+    rewrite Habs. reflexivity.
+  Qed.
 End Corollaries.
+
+Print Assumptions run_app.
+Print Assumptions mask_iff_run.
+Print Assumptions mask_iff_commit.
+Print Assumptions mask_iff_validate.
+Print Assumptions mask_keeps_state.
+Print Assumptions multibyte_iff_bytewise.
+Print Assumptions commit_split_irrelevant.
+Print Assumptions mask_cache_independent.
+Print Assumptions mask_twice.
+Print Assumptions queries_leave_no_trace.
+Print Assumptions rollback_then_mask.
+Print Assumptions rollback_then_accepting.
